@@ -16,7 +16,7 @@ from ..cases import Stats, compile_case, run_impl, ref_trace, stack_sweep, repla
 from ..gen import seq
 from ..ref.parser import parse_program
 from .. import hid, svm
-from . import c12, c08
+from . import c12, c08, c16
 
 LEVEL = 'model_checking'
 
@@ -121,7 +121,39 @@ def items(tier):
         i += 1
     out.append((i, 'lintSeeds'))
     i += 1
+    for fl in ('plain', 'you', 'defeat'):
+        nb = len(lint_bodies(fl, tier))
+        for lo in range(0, nb, 150):
+            out.append((i, 'lintB', fl, lo, lo + 150))
+            i += 1
     return out
+
+
+class _Plain(c16.Printer):
+    """Bodies of family B printed WITHOUT the per-statement markers: the statement a linter objects to is then the
+    generated statement itself (a closing return, a break ...), not a marker."""
+
+    def mark(self):
+        self.n += 1
+        return ''
+
+
+_LB = {}
+
+
+def lint_bodies(fl, tier):
+    key = (fl, tier)
+    if key not in _LB:
+        _LB[key] = c16.all_bodies(fl, 3 if tier == 'quick' else 4, 1 if tier == 'quick' else 3)
+    return _LB[key]
+
+
+def lint_source(body, fl):
+    p = _Plain(True)
+    text = p.seq(body)
+    name = {'plain': 'fut', 'you': '@fut', 'defeat': '!fut'}[fl]
+    use = f'try {{ write({name}(x)); }} undo {{ }}' if fl == 'defeat' else f'write({name}(x));'
+    return c16.PRE + f'int {name}(int x) {{ int y = 0; {text} return 3; }}\nempty @is_you(int x) {{ {use} }}\n'
 
 
 _BASE = None
@@ -205,6 +237,11 @@ def run_item(item, tier):
     elif kind == 'lintS':
         src = seq.build_S(seq.family_S('quick')[item[2]][1])
         lint(st, f'S[{item[2]}]', src)
+    elif kind == 'lintB':
+        _, _, fl, lo, hi = item
+        for body in lint_bodies(fl, tier)[lo:hi]:
+            lint(st, f'B[{fl}] without markers', lint_source(body, fl), must_compile=False)
+        st.sample({'lint_twin_of_unmarked_body': lint_source(lint_bodies(fl, tier)[lo], fl).split('\n')[3]})
     elif kind == 'lintSeeds':
         for name, src in seeds():
             lint(st, name, src)
@@ -247,13 +284,16 @@ def word_sizes(st, src, prog, argv, compiled, tag):
     st.add('width_independent_runs')
 
 
-def lint(st, name, src):
-    case = {'kind': 'lint', 'name': name, 'src': src}
+def lint(st, name, src, must_compile=True):
+    case = {'kind': 'lint', 'name': name, 'src': src, 'must_compile': must_compile}
     st.add('evaluations')
     a, ea = compile_case(src, 2, 64)
     b, eb = compile_case(src, 2, 64, lint=True)
     if ea:
-        st.viol(f'{name}: seed not compiled: {ea}', case)
+        if must_compile or ea[0] != 'reject':
+            st.viol(f'{name}: seed not compiled: {ea}', case)
+        elif not eb:
+            st.viol(f'{name}: rejected without --lint ({ea[1]}) but accepted with it', case)
         return
     if eb:
         if eb[0] == 'reject' and eb[1].startswith('TypeCheckError'):
@@ -274,7 +314,7 @@ def coverage(total, tier):
                            + ' (bound on the hash-seed dimension: not all 2^32 seeds)',
         'stack_monotonicity': 'full sweeps (every size from 1 word to S_min+8, then 256 and 1024) of S batches, all F programs and X programs',
         'word_size_monotonicity': 'E, S batches and F programs at W 2,3,4,8 on runs whose 16-bit reference execution never wraps a value',
-        'lint': 'S batches and all seed programs: TypeCheckError or byte-identical assembly (family B is covered by C16)',
+        'lint': 'S batches, all seed programs and every body of family B (C16) up to size ' + ('3' if tier == 'quick' else '4 (every 3rd of size 4)') + ' printed without statement markers: TypeCheckError or byte-identical assembly',
     })
     for k in ('identical_builds', 'sweeps', 'width_independent_runs', 'runs_with_16bit_wrap_skipped', 'lint_identical', 'lint_rejected'):
         cov[k] = total.get(k, 0)
@@ -310,5 +350,5 @@ def replay(case):
         compiled = {W: compile_case(src, W) for W in (2, 3, 4, 8)}
         word_sizes(st, src, ast.literal_eval(case['prog']), case['argv'], compiled, case['tag'])
     if k == 'lint':
-        lint(st, case['name'], case['src'])
+        lint(st, case['name'], case['src'], case.get('must_compile', True))
     return [v['msg'] for v in st.get('viol', [])]
